@@ -266,7 +266,7 @@ impl Check for C19 {
         "C19"
     }
     fn rule(&self) -> String {
-        "EXHAUSTIVE grid: every (n rules on one salience level, n in 1..=24) x max_threads 1..=16 x min_rules_per_thread 1..=4 with one generated rule set per cell, 2 schedules each. SAMPLED: random rule sets of 1..=24 rules (conditions: int/string/bool field vs literal of the same type under && / || / ! to depth 3 over 12 fields, flat and nested, fields missing in some cases; salience pools with ties incl. i32::MIN/MAX; 1 in 8 rules disabled; actions Set/Log/custom writing only Out.* keys that no condition reads), max_threads 1..=16, min_rules_per_thread 1..=4; one third of the cases are written as GRL text and parsed by the real parser (case skipped and counted if the parser does not return the rules as written). Every case: one run with parallelism off (the engine's one-by-one path) and 4 (quick) / 8 (thorough) runs with parallelism on under seeded yields/sleeps at the library's schedule points; each run checked for: Ok result, every enabled rule exactly once in execution_contexts and no other, total_rules_evaluated == number of enabled rules, total_rules_fired == number of fired contexts, fired flag == reference verdict where defined, no lower-salience rule before a higher one; parallel vs one-by-one: same fired set, same counts. A case is non-trivial when at least one rule fired, at least one did not and some salience level held 2 or more rules; distinct by case. Thorough adds Miri many-seeds (48 scheduler seeds x 6 small cases) and a ThreadSanitizer build (8 processes x 400 cases x 4 schedules).".into()
+        "EXHAUSTIVE grid: every (n rules on one salience level, n in 1..=24) x max_threads 1..=16 x min_rules_per_thread 1..=4 with one generated rule set per cell, 2 schedules each. SAMPLED: random rule sets of 1..=24 rules (conditions: int/string/bool field vs literal of the same type under && / || / ! to depth 3 over 12 fields, flat and nested, fields missing in some cases; salience pools with ties incl. i32::MIN/MAX; 1 in 8 rules disabled; actions Set/Log/custom writing only Out.* keys that no condition reads), max_threads 1..=16, min_rules_per_thread 1..=4; in one case in four the ParallelRuleEngine of every call has just executed a DIFFERENT knowledge base of the same name and version (same rule names, neighbouring rule's body, inverted enabled flags); one third of the cases are written as GRL text and parsed by the real parser (case skipped and counted if the parser does not return the rules as written). Every case: one run with parallelism off (the engine's one-by-one path) and 4 (quick) / 8 (thorough) runs with parallelism on under seeded yields/sleeps at the library's schedule points; each run checked for: Ok result, every enabled rule exactly once in execution_contexts and no other, total_rules_evaluated == number of enabled rules, total_rules_fired == number of fired contexts, fired flag == reference verdict where defined, no lower-salience rule before a higher one; parallel vs one-by-one: same fired set, same counts. A case is non-trivial when at least one rule fired, at least one did not and some salience level held 2 or more rules; distinct by case. Thorough adds Miri many-seeds (48 scheduler seeds x 6 small cases) and a ThreadSanitizer build (8 processes x 400 cases x 4 schedules).".into()
     }
     fn assumptions(&self) -> Vec<String> {
         vec![
